@@ -99,7 +99,10 @@ fn forms(secret: &[u8], text: Option<&str>) -> Vec<(String, String)> {
 fn search(log: &str, needles: &[(String, String)], own_only: bool) -> Vec<Value> {
     let mut leaks = Vec::new();
     for line in log.lines() {
-        if own_only && !(line.contains("netconf") || line.contains("bgpfu")) {
+        // lines of this repository's crates, and of the SSH client side they drive (records that reach the
+        // subscriber only if the library itself bridges `log` into `tracing`); the in-process test server's
+        // own lines are not the client's doing
+        if own_only && !(line.contains("netconf") || line.contains("bgpfu") || line.contains("russh::client")) {
             continue;
         }
         for (form, n) in needles {
@@ -275,16 +278,32 @@ fn main() {
                         s => tls_server(s).await.port(),
                     }
                 });
-                // the key file may also be a combined certificate + key file
-                let keyfile = if class == "combined-pem" {
-                    let p = std::env::temp_dir().join(format!("verif-combined-{}.pem", std::process::id()));
-                    let mut d = std::fs::read(pki("client.crt")).unwrap();
-                    d.extend(std::fs::read(pki("client.key")).unwrap());
+                // the key file as users really have it: combined with the certificate, folded onto one line, without its
+                // last line, with DOS line ends, as DER, with a Latin-1 comment or a byte-order mark in front
+                let tmp = |tag: &str, d: Vec<u8>| {
+                    let p = std::env::temp_dir().join(format!("verif-{tag}-{}.pem", std::process::id()));
                     std::fs::write(&p, d).unwrap();
                     p
-                } else {
-                    pki("client.key")
                 };
+                let key_pem = std::fs::read(pki("client.key")).unwrap();
+                let key_txt = String::from_utf8_lossy(&key_pem).to_string();
+                let keyfile = match class {
+                    "combined-pem" => {
+                        let mut d = std::fs::read(pki("client.crt")).unwrap();
+                        d.extend(key_pem.clone());
+                        tmp("combined", d)
+                    }
+                    "one-line" => tmp("oneline", format!("{}\n", key_txt.trim_end().replace('\n', " ")).into_bytes()),
+                    "no-end-marker" => tmp("noend", key_txt.lines().filter(|l| !l.starts_with("-----END")).collect::<Vec<_>>().join("\n").into_bytes()),
+                    "no-begin-marker" => tmp("nobegin", key_txt.lines().filter(|l| !l.starts_with("-----BEGIN")).collect::<Vec<_>>().join("\n").into_bytes()),
+                    "crlf" => tmp("crlf", key_txt.replace('\n', "\r\n").into_bytes()),
+                    "der" => tmp("der", key_der.clone()),
+                    "latin1-comment" => tmp("latin1", [b"# cl\xe9 priv\xe9e\n".to_vec(), key_pem.clone()].concat()),
+                    "bom" => tmp("bom", [b"\xef\xbb\xbf".to_vec(), key_pem.clone()].concat()),
+                    "truncated" => tmp("trunc", key_pem[..key_pem.len() * 2 / 3].to_vec()),
+                    _ => pki("client.key"),
+                };
+                let temp_key = class != "key";
                 let certfile = if class == "combined-pem" { keyfile.clone() } else { pki("client.crt") };
                 let out = std::process::Command::new(&agent)
                     .args(["-f", "0", "-vvvv", "--irrd-host", "127.0.0.1", "--irrd-port", "1", "remote", "--netconf-host", "127.0.0.1",
@@ -293,7 +312,7 @@ fn main() {
                            "--tls-server-name", "localhost"])
                     .env("RUST_LOG", "trace")
                     .output();
-                if class == "combined-pem" {
+                if temp_key {
                     let _ = std::fs::remove_file(&keyfile);
                 }
                 let (code, text) = match out {
